@@ -1,4 +1,7 @@
 import BasicModel.Proto
+import Driver.ReqLex
+import Driver.ReqVar
+import Driver.ReqLst
 import BasicModel.ProtoAst
 import BasicModel.ProtoProg
 import BasicModel.ProtoRt
@@ -174,6 +177,13 @@ def answer (line : String) : String :=
   match line.splitOn " " with
   | "PARSE" :: rest => answerParse rest
   | "FIND" :: _ => "ok"
+  | "LEX" :: rest => answerLex rest
+  | "C05" :: _ => "ok"
+  | "C16" :: _ => "ok"
+  | "VAR" :: rest => answerVar rest
+  | "LST" :: rest => answerLst rest
+  | "VARSPEC" :: rest => answerVarSpec rest
+  | "LSTSPEC" :: rest => answerLstSpec rest
   | "SPEC" :: rest => answerSpec rest
   | "OP" :: name :: args => answerOp name args
   | ["FMT", v] => (match readVal v with
